@@ -266,8 +266,51 @@ with members_text : list (str * jvalue) -> str -> Prop :=
 Definition json_doc_text (v : jvalue) (s : str) : Prop :=
   exists w1 t w2, ws w1 /\ json_text v t /\ ws w2 /\ s = w1 ++ t ++ w2.
 
-(* the class of the known finding, as a predicate on the text: a ':' outside strings, immediately followed by
-   one or more TABs and then a character in [-0-9A-Za-z] *)
+(* ---------------- one serialiser, as a function: the compact form ----------------
+   No insignificant whitespace; in strings the quote and the backslash as two-character escapes, control characters below
+   U+0020 as \u00XX, everything else raw.  (Json_compact_text in Proofs/JsonText.v: it is a JSON text of the value whenever the
+   numbers are RFC 8259 numbers and the strings hold Unicode scalar values.) *)
+Definition hexdig (d : N) : N := if (d <? 10)%N then (48 + d)%N else (87 + d)%N.
+Definition esc_char (c : chr) : str :=
+  if ch c 34 then [92; 34]%N else if ch c 92 then [92; 92]%N
+  else if (c <? 32)%N then [92; 117; 48; 48; hexdig (c / 16); hexdig (c mod 16)]%N
+  else [c].
+Definition json_string (s : str) : str := 34%N :: flat_map esc_char s ++ [34%N].
+Fixpoint json_compact (v : jvalue) : str :=
+  match v with
+  | JNull => s_null
+  | JBool b => lit_text b
+  | JNum t => t
+  | JStr s => json_string s
+  | JArr l =>
+      91%N :: match l with
+              | [] => []
+              | x :: r => json_compact x ++ flat_map (fun y => 44%N :: json_compact y) r
+              end ++ [93%N]
+  | JObj l =>
+      123%N :: match l with
+               | [] => []
+               | kv :: r => (json_string (fst kv) ++ 58%N :: json_compact (snd kv))
+                            ++ flat_map (fun kv => 44%N :: json_string (fst kv) ++ 58%N :: json_compact (snd kv)) r
+               end ++ [125%N]
+  end.
+(* the strings (values and member names) hold Unicode scalar values *)
+Definition scalar_char (c : chr) : bool := (c <=? 1114111)%N && negb (surrogate c).
+Fixpoint json_chars_ok (v : jvalue) : bool :=
+  match v with
+  | JStr s => forallb scalar_char s
+  | JArr l => forallb json_chars_ok l
+  | JObj l => forallb (fun kv => forallb scalar_char (fst kv) && json_chars_ok (snd kv)) l
+  | _ => true
+  end.
+Example json_compact_ex :
+  json_compact (JObj [([97]%N, JArr [JNum [49]%N; JStr [34; 10; 233]%N; JNull]); ([98]%N, JObj [])])
+  = [123;34;97;34;58;91;49;44;34;92;34;92;117;48;48;48;97;233;34;44;110;117;108;108;93;44;34;98;34;58;123;125;125]%N.
+Proof. reflexivity. Qed.
+
+(* the class of the FORMER finding colon-tab-scalar (fixed by /repo b87c12b; now only the routing predicate of a
+   regression stream of ./check C13, no statement excludes it), as a predicate on the text: a ':' outside strings,
+   immediately followed by one or more TABs and then a character in [-0-9A-Za-z] *)
 Inductive tstate := Tout | Tin | Tesc.
 Definition scalar_head (c : chr) : bool :=
   ch c 45 || ((48 <=? c)%N && (c <=? 57)%N) || ((65 <=? c)%N && (c <=? 90)%N) || ((97 <=? c)%N && (c <=? 122)%N).
